@@ -24,6 +24,9 @@ pub mod parse;
 
 pub mod io;
 
+#[cfg(feature = "verif_hooks")]
+pub use crate::parse::verif_hooks;
+
 const TARGET: &str = "target";
 const SOURCE: &str = "src";
 
